@@ -219,6 +219,11 @@ def cfg_C09(tier, rng):
                              family=lambda r, kk: gc.family_f3(r, kk, nmin=5, nmax=8, contracts=True)))]
 
 
+def driver_watchdog(rng, c, length):
+    import driver
+    return driver.watchdog_history(rng, c, length)
+
+
 def cfg_C10(tier, rng):
     k = 40 if tier == QUICK else 400
     base = thin(_sub(gc.family_f1(4 if tier == QUICK else 5), k, rng), rng, 4)
@@ -235,6 +240,11 @@ def cfg_C10(tier, rng):
                  variants=[dict(variant='api', monitor=True)],
                  random=dict(count=100 if tier == QUICK else 1000, length=12, pmfail=0.3,
                              family=lambda r, kk: gc.family_f3(r, kk, nmin=5, nmax=8))),
+            dict(name='watchdog', charts=rich[:3],
+                 consts=dict(MaxQ=1, MaxLevel=2),
+                 variants=[dict(variant='api', monitor='watchdog')],
+                 random=dict(count=150 if tier == QUICK else 1500, length=14, hist=driver_watchdog,
+                             family=lambda r, kk: gc.family_f3(r, kk, nmin=3, nmax=6, tmin=3, tmax=6, nev=2, max_oracle=2))),
             dict(name='nonintrusive', charts=base[:len(base) // 2] + rich,
                  consts=dict(MaxQ=1, MaxClk=6, MaxLevel=5 if tier == QUICK else 6),
                  variants=[dict(variant='api', monitor=True, twin=dict(rel='nomon', kw=dict(monitor=False)))],
@@ -543,7 +553,8 @@ def run_stage(prop, tier, seed, stage, rng):
         allcharts += extra
         for i in range(rd['count']):
             ci = base + 1 + (i % len(extra))
-            h = engine.random_history(rng, allcharts[ci - 1], rd['length'], delays=rd.get('delays', (0,)),
+            h = rd['hist'](rng, allcharts[ci - 1], rd['length']) if rd.get('hist') else \
+                engine.random_history(rng, allcharts[ci - 1], rd['length'], delays=rd.get('delays', (0,)),
                                       advances=rd.get('advances', ()), params=rd.get('params', (0,)),
                                       maxq=rd.get('maxq', 3), pfail=rd.get('pfail', 0.0),
                                       pmfail=rd.get('pmfail', 0.0), pexec=rd.get('pexec', 0.0))
